@@ -183,11 +183,12 @@ CHECKS.update({
              'stable); after the first failing hook exactly the remaining failsafe hooks run once each in order whatever they do and '
              'the point raises; on_end_resource runs exactly once in respond() for every environment; per-function bounds of every '
              'hook point (documented order); on_end_request runs at most once per request object over a whole server session with any '
-             'number of close() calls and internal redirects, and never inside Request.run. The pipeline skeletons are regenerated '
+             'number of close() calls and internal redirects - in terminating sessions exactly once for exactly the requests '
+             'whose close() got past its guard - and never inside Request.run. The pipeline skeletons are regenerated '
              'from /repo on every run (ties by reflexivity); probe hooks x faults x streaming outcomes are run through the real '
              'pipeline and the extracted model and journals (hook point, hook ids) compared.',
-        note='"on_end_request at least once" is not proved (needs an invariant over request identities): c09 states <= 1, the >= 1 half is '
-             'covered by the differential fault enumeration and the oracle; assumes the server calls close().',
+        note='that close() is CALLED on every served request is not proved (needs an invariant over request identities the abstraction '
+             'does not track): covered by the differential fault enumeration and the oracle; assumes the server calls close().',
         technique='Coq proof (stable-sort/failsafe lemmas + counting invariants over source-generated skeletons) + reflexivity ties + fault-injection correspondence', ref='6/C09'),
 })
 
